@@ -5,9 +5,10 @@ import os
 import re
 import subprocess
 import tempfile
+import warnings
 
 from .core import exc_class, hx
-from .fstree import (CHAIN_FILE, CHAIN_NAME, apply_ops, collect_ids, count_nodes, enc_chain, enc_tree, gen_reread, gen_spelling,
+from .fstree import (CHAIN_FILE, CHAIN_NAME, apply_ops, apply_ops_memory, ref_entries, wide_tree, collect_ids, count_nodes, enc_chain, enc_tree, gen_reread, gen_spelling,
                      gen_tree, has_kind, impl_chain, mutate_tree, on_disk, other_spelling, ref_chain, ref_ids, shrink_tree,
                      shuffled_scandir, spelled_root, subdirs)
 
@@ -38,6 +39,14 @@ RULE = ("random file-system trees (depth <= 5, <= 120 nodes) materialised in a t
         "spelled root path and the CLI) and N in {1000, 1500} (above the interpreter's recursion limit: open known "
         "finding tree-deeper-than-recursion-limit, demonstrated), more depths and fan-out at the bottom in the thorough "
         "tier; built, encoded, hashed and removed iteratively, the recursion limit is never raised around the library; "
+        "every tree is read with the default path_filter, with accept_all_paths and with the deprecated accept_all_directories "
+        "given explicitly, once with a progress_callback (one positive count per non-empty directory, adding up to the number "
+        "of entries); nodes are also fetched through nested '/' keys (d[b'a/b/c'], `in`, d[b''], a missing key is a "
+        "KeyError) and the `entries` property of every directory is compared with the reference entries in git order and "
+        "with to_model(); special files are fifos, unix sockets and character devices, modes include 0, set-uid/gid and "
+        "sticky bits, names up to 255 bytes, one directory with 300 entries (thorough: up to 1000); IN-MEMORY EDITS (20 % "
+        "of the cases): the edits below done on the Directory through its dict interface with nested keys "
+        "(d[key] = Content.from_bytes(..) / Directory(), del d[key], move) after everything was hashed; "
         "RE-READ (30 % of the cases): after the reads above the tree is modified in place - files rewritten with other bytes "
         "of the same length and atime/mtime restored, exec bits flipped, file <-> symlink, directory -> file, entries added "
         "and removed, a directory renamed (same inode), two same-size files swapped - or removed and built again at the "
@@ -72,16 +81,31 @@ def gen(rng, tier):
         if k % 15 == 0:
             opts["sizes"] = [32767, 32768, 32769, 70000, 0, 1]
         t = gen_tree(rng, opts=opts)
+        while opts and coq_tree_bytes(t) > 200000:      # the extracted SHA-1 runs at ~100 kB/s and every request hashes the tree
+            t = gen_tree(rng, budget=[rng.choice([3, 8, 20])], opts=opts)
         if k % 6 == 1:
             # the name of the root directory itself ("root") occurs again deeper, next to same-named siblings
             lib = {"t": "D", "c": [[b"root".hex(), {"t": "D", "c": [[b"docs".hex(), {"t": "D", "c": []}]]}],
                                    [b"docs".hex(), {"t": "D", "c": [[b"f".hex(), {"t": "R", "d": b"x".hex(), "m": 0o644}]]}]]}
             if b"lib".hex() not in [n for n, _ in t["c"]]:
                 t["c"].append([b"lib".hex(), lib])
+        rr = gen_reread(rng, 0.3)
+        if opts:
+            rr = None       # trees with files around / above the 32768-byte block: the extracted SHA-1 is slow, no second tree
         cases.append({"tree": t, "seed": rng.randrange(10**6), "slashes": rng.choice([0, 0, 1, 3]), "spelling": gen_spelling(rng),
-                      "reread": gen_reread(rng, 0.3)})
+                      "reread": rr})
+        if rr is None and not opts and rng.random() < 0.3:
+            # the same kind of edits done IN MEMORY through the dict interface of the Directory (nested '/' keys)
+            cases[-1]["memedit"] = {"seed": rng.randrange(10**6), "n": rng.randrange(1, 6), "mode": "edit"}
+    for _ in range(1 if tier == "quick" else 8):
+        cases.insert(8, {"tree": wide_tree(rng, 300 if tier == "quick" else rng.choice([100, 300, 1000])), "seed": rng.randrange(10**6),
+                         "slashes": 0, "spelling": "real"})
     cases[2:2] = [{"tree": small, "seed": 7, "slashes": 0, "spelling": "real", "reread": {"seed": s_, "n": 4, "mode": m_}}
                   for s_, m_ in ((1, "edit"), (2, "edit"), (3, "rebuild"))]
+    deep3 = {"t": "D", "c": [["61", {"t": "D", "c": [["62", {"t": "D", "c": [["63", {"t": "D", "c": [["64", {"t": "R", "d": "78", "m": 0o4755}]]}],
+                                                                               ["65", {"t": "S", "m": 0o644, "k": "sock"}]]}]]}],
+                             ["66", {"t": "S", "m": 0o755, "k": "chr"}], ["67", {"t": "R", "d": "", "m": 0}]]}
+    cases[2:2] = [{"tree": deep3, "seed": 8, "slashes": 0, "spelling": "real", "memedit": {"seed": s_, "n": 5, "mode": "edit"}} for s_ in (1, 2, 3)]
     # deep chains: below the recursion limit (must pass) and above it (known finding)
     chains = [(200, 7, "linkup_rel", 1), (500, 0, "real", 0), (900, 250, "real", 0), (1000, 0, "real", 0), (1500, 400, "rootlink", 0)]
     if tier != "quick":
@@ -134,6 +158,10 @@ def classify(c):
     ks.append("root=" + c.get("spelling", "real"))
     if c.get("reread"):
         ks.append("reread-after-" + c["reread"].get("mode", "edit"))
+    if c.get("memedit"):
+        ks.append("in-memory-edits")
+    if t["t"] == "D" and len(t["c"]) >= 100:
+        ks.append("fan-out>=100")
     if _is_chain(c):
         ks.append("chain-depth=" + ("<=500" if c["chain"] <= 500 else "501-%d" % DEPTH_FINDING_FLOOR if c["chain"] <= DEPTH_FINDING_FLOOR
                                     else ">%d" % DEPTH_FINDING_FLOOR))
@@ -169,6 +197,50 @@ def _impl_chain(c):
     return res
 
 
+def _access_facts(d, t):
+    """nested '/' keys (d[b"a/b/c"], b"a/b" in d, d[b""]), the `entries` property / child_to_directory_entry of every directory"""
+    bad = []
+    ids = ref_ids(t)
+    if d[b""] is not d:
+        bad.append('d[b""] is not d')
+    paths = sorted(ids)
+    step = max(1, len(paths) // 60)
+    for p in paths[::step]:
+        if not p:
+            continue
+        try:
+            if p not in d:
+                bad.append("%r in d is False" % p)
+            elif d[p].hash.hex() != ids[p]:
+                bad.append("d[%r].hash is not the id of that node" % p)
+            if (p + b"/zz-no-such-entry") in d if hasattr(d[p], "entries") else False:
+                bad.append("a missing key is reported present below %r" % p)
+        except Exception as e:
+            bad.append("d[%r] raised %s" % (p, exc_class(e)))
+    try:
+        d[b"zz-no-such-entry/x"]
+        bad.append("a missing nested key did not raise")
+    except KeyError:
+        pass
+    except Exception as e:
+        bad.append("a missing nested key raised %s, not KeyError" % exc_class(e))
+
+    def dirs(n, prefix):
+        yield prefix, n
+        for nm, ch in n["c"]:
+            if ch["t"] == "D":
+                yield from dirs(ch, prefix + b"/" + bytes.fromhex(nm) if prefix else bytes.fromhex(nm))
+    alld = list(dirs(t, b""))
+    for prefix, n in alld[::max(1, len(alld) // 40)]:
+        node = d[prefix]
+        got = [(e["name"], str(e["type"]), int(e["perms"]), e["target"].hex()) for e in node.entries]
+        if got != ref_entries(n, ids, prefix):
+            bad.append("entries of %r are not the directory's entries in git order" % prefix)
+        if got != [(e.name, str(e.type), int(e.perms), e.target.hex()) for e in node.to_model().entries]:
+            bad.append("entries and to_model().entries of %r differ" % prefix)
+    return bad[:5]
+
+
 def impl(c):
     if _is_chain(c):
         return _impl_chain(c)
@@ -181,11 +253,18 @@ def impl(c):
             res["ids"] = {hx(k): v for k, v in collect_ids(d).items()}
             res["swhid"] = str(d.swhid())
             orders = []
-            for s in range(2):
-                with shuffled_scandir(c["seed"] + s):
-                    d2 = Directory.from_disk(path=spelled + b"/" * c["slashes"])
-                orders.append({hx(k): v for k, v in collect_ids(d2).items()})
             from swh.model import from_disk as _fd
+            progress = []
+            # the default path_filter above; here the two "accept everything" filters given explicitly (the second is the
+            # deprecated accept_all_directories) and, once, a progress_callback: none of this may change an id
+            for s, kw in enumerate(({"path_filter": _fd.accept_all_paths, "progress_callback": progress.append},
+                                    {"path_filter": _fd.accept_all_directories, "max_content_length": None, "progress_callback": None})):
+                with shuffled_scandir(c["seed"] + s), warnings.catch_warnings():
+                    warnings.simplefilter("ignore")
+                    d2 = Directory.from_disk(path=spelled + b"/" * c["slashes"], **kw)
+                orders.append({hx(k): v for k, v in collect_ids(d2).items()})
+            res["progress"] = [v if type(v) is int else repr(v) for v in progress]
+            res["access_bad"] = _access_facts(d, c["tree"])
             with shuffled_scandir(c["seed"] + 7):
                 res["root_ignore_empty"] = Directory.from_disk(path=root, path_filter=_fd.ignore_empty_directories).hash.hex()
             # the same directory designated by a RELATIVE path (with and without trailing slash)
@@ -212,6 +291,15 @@ def impl(c):
             res["cli"] = r.output.strip() if r.exit_code == 0 else "exit %d %s" % (r.exit_code, exc_class(r.exception) if r.exception else "")
         except Exception as e:
             res["cli"] = "error:" + exc_class(e)
+        if c.get("memedit"):
+            try:
+                dm = Directory.from_disk(path=root)
+                dm.hash                                  # everything is hashed (and cached) before the edits
+                apply_ops_memory(dm, mutate_tree(c["tree"], c["memedit"])[1], c["tree"])
+                res["reread_ids"] = {hx(k): v for k, v in collect_ids(dm).items()}
+                res["reread_equal"] = True
+            except Exception as e:
+                res["reread_error"] = exc_class(e) + ":" + str(e)[:80]
         if c.get("reread"):
             # the tree is now modified IN PLACE (or removed and built again at the same path) and read again, in the same
             # process: nothing may be carried over from the reads above
@@ -237,8 +325,8 @@ def requests(c):
     # the last request goes through the literal stack/queue model (from_disk_iter) with the listing reversed
     rq = ["ids all - id " + t, "ids all - rev " + t, "spec " + t, "pruned empty " + t, "ids empty - id " + t,
           "iterids empty - rev " + t]
-    if c.get("reread"):
-        t2 = enc_tree(mutate_tree(c["tree"], c["reread"])[0])
+    if c.get("reread") or c.get("memedit"):
+        t2 = enc_tree(mutate_tree(c["tree"], c.get("reread") or c["memedit"])[0])
         rq += ["ids all - id " + t2, "spec " + t2]
     return rq
 
@@ -264,7 +352,7 @@ def model(c, resp):
     e = ids(resp[4])
     res["root_ignore_empty"] = e.get(".") if isinstance(e, dict) else str(e)
     res["ids_empty"], res["iterids_empty"] = e, ids(resp[5])
-    if c.get("reread"):
+    if c.get("reread") or c.get("memedit"):
         res["reread_ids"] = ids(resp[6])
         res["reread_git_node_id"] = resp[7].split(" ")[2]
     return res
@@ -326,15 +414,22 @@ def oracle(c, ires, mres):
         return "swhid() does not carry the root id"
     if ires["cli"] != "swh:1:dir:" + root:
         return "the command line prints %r, the library computes swh:1:dir:%s" % (ires["cli"], root)
-    if c.get("reread"):
+    if ires.get("access_bad"):
+        return "; ".join(ires["access_bad"][:3])
+    pg = ires.get("progress", [])
+    if any(type(v) is not int or v <= 0 for v in pg) or sum(v for v in pg if type(v) is int) != count_nodes(c["tree"]) - 1:
+        return ("progress_callback got %s: not one positive entry count per non-empty directory adding up to the %d entries of the tree"
+                % (pg[:8], count_nodes(c["tree"]) - 1))
+    if c.get("reread") or c.get("memedit"):
+        how = "on disk, in place (%s)" % c["reread"].get("mode", "edit") if c.get("reread") else "in memory through the dict interface"
         if "reread_error" in ires:
-            return "reading the tree again after it was modified in place raised " + ires["reread_error"]
-        want = {hx(k): v for k, v in ref_ids(mutate_tree(c["tree"], c["reread"])[0]).items()}
+            return "reading / editing the tree again (%s) raised %s" % (how, ires["reread_error"])
+        want = {hx(k): v for k, v in ref_ids(mutate_tree(c["tree"], c.get("reread") or c["memedit"])[0]).items()}
         if ires["reread_ids"] != want:
             a = ires["reread_ids"]
             diff = sorted(k for k in set(a) | set(want) if a.get(k) != want.get(k))[:4]
-            return ("a second read, after the tree was modified in place (%s), does not give the ids of the tree as it is now: "
-                    "differs at paths %s" % (c["reread"].get("mode", "edit"), diff))
+            return ("after the tree was modified %s the ids are not those of the tree as it is now: "
+                    "differs at paths %s" % (how, diff))
         if ires["reread_ids"]["."] != mres["reread_git_node_id"]:
             return "the root id of the second read is not the git tree id of the modified tree"
         if not ires["reread_equal"]:
@@ -371,7 +466,7 @@ def compare(c, ires, mres):
         a, b = mres["ids"], ires["ids"]
         diff = [k for k in set(a) | set(b) if a.get(k) != b.get(k)]
         return "node ids differ between model and implementation at paths %s" % sorted(diff)[:4]
-    if c.get("reread") and mres["reread_ids"] != ires.get("reread_ids"):
+    if (c.get("reread") or c.get("memedit")) and mres["reread_ids"] != ires.get("reread_ids"):
         return "node ids of the re-read (modified) tree differ between model and implementation"
     return None
 
@@ -388,8 +483,9 @@ def shrink(c):
         yield dict(c, slashes=0)
     if c.get("spelling", "real") != "real":
         yield dict(c, spelling="real")
-    if c.get("reread") and c["reread"].get("n", 1) > 1:
-        yield dict(c, reread=dict(c["reread"], n=c["reread"]["n"] - 1))
+    for k in ("reread", "memedit"):
+        if c.get(k) and c[k].get("n", 1) > 1:
+            yield dict(c, **{k: dict(c[k], n=c[k]["n"] - 1)})
 
 
 def pre_checks(ctx):
@@ -557,6 +653,6 @@ Definition export_case (r : fd_result mtree) : list N := match r with
 def coq_cases(cases):
     """from_disk (both listing orders, filters all / empty), from_disk_iter, node_id, git_node_id, wf_fs, prune_empty and mt_id
     with H := Sha1.sha1 evaluated by vm_compute inside Coq vs the extracted driver, on small trees (extraction cross-check)"""
-    small = [c for c in cases if not c.get("chain") and not c.get("reread") and count_nodes(c["tree"]) <= 10 and coq_tree_bytes(c["tree"]) <= 400][:12]
+    small = [c for c in cases if not c.get("chain") and not c.get("reread") and not c.get("memedit") and count_nodes(c["tree"]) <= 10 and coq_tree_bytes(c["tree"]) <= 400][:12]
     cases[:] = small
     return coq_from_disk(ID, [(c, requests(c)) for c in small])
